@@ -20,6 +20,8 @@ func init() {
 		Assumptions: []string{"locks are identified by access path (no aliasing of mutexes)", "sort.Slice/sort.Search and friends invoke their callback synchronously"},
 		Run:         runC11,
 		Controls: []Control{
+			{Name: "normalise-the-callers-paths-in-place", File: "pkg/masks/update.go", Old: "\tmask := &fieldmaskpb.FieldMask{Paths: append([]string(nil), paths...)}\n", New: "\tmask := &fieldmaskpb.FieldMask{Paths: paths}\n", Expect: "R11.9"},
+			{Name: "revert-F63-append-onto-callers-mask", File: "pkg/masks/util.go", Old: "\t\t\tout.Paths = append(out.Paths, path)\n", New: "\t\t\tout.Paths = append(mask.Paths, path)\n", Expect: "R11.8"},
 			{Name: "revert-F55-append-to-variadic", File: "pkg/trait/lightpb/model.go", Old: "\t\topts = append(append([]resource.WriteOption(nil), opts...), resource.WithMoreUpdatePaths(\"level_percent\"))", New: "\t\topts = append(opts, resource.WithMoreUpdatePaths(\"level_percent\"))", Expect: "R11.7"},
 			{Name: "variadic-capped-before-append", Silent: true, File: "pkg/trait/lightpb/model.go", Old: "\t\topts = append(append([]resource.WriteOption(nil), opts...), resource.WithMoreUpdatePaths(\"level_percent\"))", New: "\t\topts = append(opts[:len(opts):len(opts)], resource.WithMoreUpdatePaths(\"level_percent\"))"},
 			{Name: "revert-F39-trailer-unlocked", File: "pkg/wrap/stream.go", Old: "func (c *clientStream) Trailer() metadata.MD {\n\tc.trailerM.Lock()\n\tdefer c.trailerM.Unlock()\n", New: "func (c *clientStream) Trailer() metadata.MD {\n", Expect: "R11.5"},
@@ -72,6 +74,10 @@ func runC11(c *an.Ctx) {
 	r115(c)
 	r116(c)
 	r117(c)
+	r118(c, "R11.8")
+	r119(c, "R11.9")
+	c.Min("R11.9", 2)
+	c.Min("R11.8", 1)
 	c.Min("R11.5", 2)
 	c.Min("R11.6", 10)
 	c.Min("R11.7", 1)
@@ -786,4 +792,154 @@ func r117as(c *an.Ctx, rule string) {
 	}
 	c.Count("variadic_functions", n)
 	c.Ok(rule, "module|variadic functions scanned", 0, fmt.Sprintf("%d variadic functions", n))
+}
+
+// r118: append(x.F, …) writes the backing array of x.F when it has spare capacity. That is fine where the result goes
+// back into x.F (the owner grows its own list). Stored anywhere else it leaves two slices sharing one array: when x is
+// a parameter - the caller's message or option struct - the function has written the caller's memory, and two
+// concurrent calls given the same object race on that array slot.
+func r118(c *an.Ctx, rule string) {
+	n := 0
+	for _, fn := range c.Prog.FuncsIn("pkg") {
+		if c.Prog.IsGenerated(fn.Pos()) || fn.Parent() != nil {
+			continue
+		}
+		an.Instrs(fn, func(in ssa.Instruction) {
+			call, ok := in.(*ssa.Call)
+			if !ok || an.CalleeName(call) != "builtin append" || len(call.Call.Args) == 0 {
+				return
+			}
+			ld, isLoad := call.Call.Args[0].(*ssa.UnOp)
+			if !isLoad || ld.Op != token.MUL {
+				return
+			}
+			fa, isFA := ld.X.(*ssa.FieldAddr)
+			if !isFA {
+				return
+			}
+			// the object is a parameter of this function (not the receiver's own state growing)
+			var owner *ssa.Parameter
+			for _, s0 := range localValues(fa.X, 0) {
+				if p, isP := s0.(*ssa.Parameter); isP && p.Parent() == fn {
+					owner = p
+				}
+			}
+			if owner == nil || (fn.Signature.Recv() != nil && owner == fn.Params[0]) {
+				return
+			}
+			n++
+			// where the result goes
+			back := false
+			for _, u := range an.Referrers(call) {
+				if st, isSt := u.(*ssa.Store); isSt && st.Val == ssa.Value(call) {
+					if fa2, isFA2 := st.Addr.(*ssa.FieldAddr); isFA2 && fa2.Field == fa.Field && an.SameValues(fa2.X, fa.X) {
+						back = true
+					}
+				}
+			}
+			_, _, fld, _ := an.FieldOf(fa)
+			c.SawFunc(an.FuncName(fn))
+			c.Check(back, rule, an.FuncName(fn)+"|append onto "+owner.Name()+"."+fld+" goes back into it", call.Pos(), "the grown list is stored where it came from",
+				"append("+owner.Name()+"."+fld+", …) extends a list that belongs to the caller's object and the result is kept somewhere else: with spare capacity the call writes the caller's backing array (two concurrent calls given the same object race on it) and the two slices go on sharing memory")
+		})
+	}
+	c.Count("appends_onto_a_parameters_list", n)
+	if n == 0 {
+		c.Ok(rule, "module|no append onto a list of a parameter's object", 0, "")
+	}
+}
+
+// r119: FieldMask.Normalize sorts and de-duplicates Paths IN PLACE. The masks the library normalises are the callers'
+// (a request's update mask, a configured writable mask), shared between concurrent calls and still in use by whoever
+// passed them in: Normalize is only ever called on a FieldMask the calling function has just built around a COPY of
+// the paths (append([]string(nil), paths...) / slices.Clone / a fresh slice it appended to itself).
+func r119(c *an.Ctx, rule string) {
+	n := 0
+	for _, fn := range c.Prog.FuncsIn("pkg") {
+		if c.Prog.IsGenerated(fn.Pos()) {
+			continue
+		}
+		for _, call := range an.CallsTo(fn, "(*google.golang.org/protobuf/types/known/fieldmaskpb.FieldMask).Normalize") {
+			n++
+			c.SawFunc(an.FuncName(fn))
+			recv := call.Common().Args[0]
+			why := ""
+			var alloc *ssa.Alloc
+			for _, v := range localValues(recv, 0) {
+				if a, ok := v.(*ssa.Alloc); ok {
+					alloc = a
+				} else {
+					why = "the mask that is normalised is not one this function has just built"
+				}
+			}
+			if alloc != nil && why == "" {
+				// what its Paths were set to
+				set := false
+				for _, u := range an.Referrers(alloc) {
+					fa, isFA := u.(*ssa.FieldAddr)
+					if !isFA {
+						continue
+					}
+					if _, _, f, _ := an.FieldOf(fa); f != "Paths" {
+						continue
+					}
+					for _, u2 := range an.Referrers(fa) {
+						st, isSt := u2.(*ssa.Store)
+						if !isSt || st.Addr != ssa.Value(fa) {
+							continue
+						}
+						set = true
+						for _, v := range localValues(st.Val, 0) {
+							ownCopy := false
+							switch x := v.(type) {
+							case *ssa.Call:
+								switch an.CalleeName(x) {
+								case "builtin append":
+									// append(nil / a fresh slice, …): a copy; append(paths[:0], …) or append(paths, …): not
+									for _, b := range localValues(x.Call.Args[0], 0) {
+										if an.IsNilConst(b) {
+											ownCopy = true
+										}
+										if _, isMk := b.(*ssa.MakeSlice); isMk {
+											ownCopy = true
+										}
+										if lc, isC := b.(*ssa.Call); isC && an.CalleeName(lc) == "builtin append" {
+											ownCopy = true // grown from this function's own list
+										}
+										if ld, isLd := b.(*ssa.UnOp); isLd {
+											if fa3, isFA3 := ld.X.(*ssa.FieldAddr); isFA3 && an.IsFresh(fa3.X) {
+												ownCopy = true // the new mask's own Paths, appended to in a loop
+											}
+										}
+									}
+								default:
+									if strings.HasSuffix(an.CalleeName(x), "slices.Clone") || strings.Contains(an.CalleeName(x), "slices.Clone[") {
+										ownCopy = true
+									}
+								}
+							case *ssa.MakeSlice:
+								ownCopy = true
+							case *ssa.Slice:
+								if _, isAlloc := x.X.(*ssa.Alloc); isAlloc {
+									ownCopy = true // a literal
+								}
+							}
+							if an.IsNilConst(v) {
+								ownCopy = true
+							}
+							if !ownCopy {
+								why = "the new mask's Paths is the caller's slice itself, not a copy"
+							}
+						}
+					}
+				}
+				if !set {
+					why = "" // an empty mask
+				}
+			}
+			c.Check(why == "", rule, an.FuncName(fn)+"|Normalize works on the function's own copy of the paths", call.Pos(), "a fresh FieldMask around a copy",
+				why+": FieldMask.Normalize sorts and de-duplicates in place, so the caller's mask is rewritten under it - its paths change order for whoever still uses it, and concurrent writes sharing one update mask race on its backing array")
+		}
+	}
+	c.Count("normalize_calls", n)
 }
